@@ -818,8 +818,174 @@ impl SubCheck for UdpInStream {
     }
 }
 
+
+// ---------------------------------------------------------------------------------------------- identity chains (SIP023)
+//
+// A client password `iPSK0:iPSK1:...:uPSK` addresses a chain of relays: relay i holds iPSK_i, finds in its identity
+// header the hash of the next key and forwards. This project's own server takes one level only, so the implementation is
+// the *sender* here and the reference walks the chain the way the relays would.
+
+#[derive(Clone, Debug, Serialize, Deserialize)]
+pub struct ChainCase {
+    pub aes256: bool,
+    /// number of identity keys in front of the user key (1..=3)
+    pub n_ipsk: u8,
+    pub seed: u64,
+    pub addr: Addr,
+    pub lens: Vec<u32>,
+    pub udp: bool,
+}
+
+pub struct IdentityChain;
+
+impl SubCheck for IdentityChain {
+    type Case = ChainCase;
+    fn name(&self) -> &'static str {
+        "identity-chain"
+    }
+    fn strategy(&self, _tier: Tier) -> BoxedStrategy<ChainCase> {
+        (any::<bool>(), 1u8..=3, any::<u64>(), gen::addr_strategy(), gen::write_lens(4, false), any::<bool>())
+            .prop_map(|(aes256, n_ipsk, seed, addr, mut lens, udp)| {
+                if lens.is_empty() {
+                    lens.push(19);
+                }
+                ChainCase { aes256, n_ipsk, seed, addr, lens, udp }
+            })
+            .boxed()
+    }
+    fn exec(&self, c: &ChainCase) -> Outcome {
+        use crate::refimpl::{aes_ecb_decrypt_block, b64};
+        let mut out = Outcome::new();
+        real::set_clock(Some(T0));
+        let cipher = if c.aes256 { ss2022::C22::Aes256 } else { ss2022::C22::Aes128 };
+        let kl = cipher.key_len();
+        let mut d = Det::new(c.seed, "chain");
+        let keys: Vec<Vec<u8>> = (0..=c.n_ipsk as usize).map(|_| d.bytes(kl)).collect();
+        let password = keys.iter().map(|k| b64(k)).collect::<Vec<_>>().join(":");
+        let cred = Cred { proto: Proto::Ss22(cipher), password: b64(&keys[0]), client_password: Some(password), users: vec![] };
+        let (ipsks, upsk) = (&keys[..keys.len() - 1], &keys[keys.len() - 1]);
+        let Some(address) = to_address(&c.addr) else { return out };
+        out.label(format!("proto:ss/{}", cipher.name()));
+        out.label(format!("identity-keys:{}", c.n_ipsk));
+        out.label(if c.udp { "datagram" } else { "stream" });
+        let sig = |what: &str| format!("identity-chain/{}/{}", if c.udp { "udp" } else { "tcp" }, what);
+        if c.udp {
+            let Ok(cctx) = real::ClientUdpCtx::new(&cred) else {
+                out.fail(sig("client-refuses-documented-key-chain"), format!("the client refuses a password of {} colon-separated keys of the right length", keys.len()));
+                return out;
+            };
+            let mut cc = cctx.codec();
+            for (k, l) in c.lens.iter().enumerate() {
+                let payload = gen::keystream(c.seed, k * 1000, (*l as usize).min(1400));
+                let mut wire = BytesMut::new();
+                match rt::catch(|| cc.encode(&payload, address.clone(), &mut wire)) {
+                    Err(p) => {
+                        out.fail(sig("client-encoder-panics"), format!("datagram {} ({} bytes) with {} identity keys: the client's encoder panicked: {}", k, payload.len(), c.n_ipsk, p));
+                        return out;
+                    }
+                    Ok(Err(e)) => {
+                        out.fail(sig("client-encoder-fails"), format!("datagram {} ({} bytes) with {} identity keys: {}", k, payload.len(), c.n_ipsk, e));
+                        return out;
+                    }
+                    Ok(Ok(())) => {}
+                }
+                // relay 0 opens the separate header with its key; every relay i finds the hash of the next key
+                let n = c.n_ipsk as usize;
+                if wire.len() < 16 + 16 * n + 16 {
+                    out.fail(sig("reference-rejects-client-datagram"), format!("datagram of {} bytes is too short for a separate header, {} identity headers and a tag", wire.len(), n));
+                    return out;
+                }
+                let mut header: [u8; 16] = wire[..16].try_into().unwrap();
+                aes_ecb_decrypt_block(&ipsks[0], &mut header);
+                for i in 0..n {
+                    let mut block: [u8; 16] = wire[16 + 16 * i..32 + 16 * i].try_into().unwrap();
+                    aes_ecb_decrypt_block(&ipsks[i], &mut block);
+                    for (b, h) in block.iter_mut().zip(header.iter()) {
+                        *b ^= h;
+                    }
+                    let next = if i + 1 < n { &ipsks[i + 1] } else { upsk };
+                    if block != ss2022::psk_hash(next) {
+                        out.fail(sig("relay-does-not-find-the-next-key"), format!("datagram {}: identity header {} of {} does not name the next key of the chain", k, i, n));
+                        return out;
+                    }
+                }
+                let sid = u64::from_be_bytes(header[..8].try_into().unwrap());
+                let sk = ss2022::session_subkey(upsk, &sid.to_be_bytes(), kl);
+                let Some(body) = cipher.udp_alg().open(&sk, &header[4..16], &[], &wire[16 + 16 * n..]) else {
+                    out.fail(sig("reference-rejects-client-datagram"), format!("datagram {} ({} payload bytes, {} identity keys): the body does not open under the user key's session sub-key at offset {}", k, payload.len(), n, 16 + 16 * n));
+                    return out;
+                };
+                // type, timestamp, padding, address, payload
+                let ok = (|| {
+                    if body.len() < 11 || body[0] != 0 {
+                        return None;
+                    }
+                    let plen = u16::from_be_bytes([body[9], body[10]]) as usize;
+                    let (a, an) = Addr::parse_socks(body.get(11 + plen..)?)?;
+                    Some(a == c.addr && body[11 + plen + an..] == payload[..])
+                })();
+                if ok != Some(true) {
+                    out.fail(sig("reference-decodes-differently"), format!("datagram {}: the decoded body does not carry the address and the {} payload bytes the client was given", k, payload.len()));
+                    return out;
+                }
+            }
+        } else {
+            let Ok(cctx) = ClientCtx::new(&cred) else {
+                out.fail(sig("client-refuses-documented-key-chain"), format!("the client refuses a password of {} colon-separated keys of the right length", keys.len()));
+                return out;
+            };
+            let Ok(mut cc) = cctx.codec(&address) else { return out };
+            let writes = gen::writes_from_lens(c.seed, &c.lens);
+            let wire = match encode_all(&mut cc, writes.iter().map(|w| BytesMut::from(&w[..])).collect()) {
+                Ok((w, _)) => w,
+                Err(e) => {
+                    out.fail(sig("client-encoder-fails"), format!("{} identity keys: {}", c.n_ipsk, e));
+                    return out;
+                }
+            };
+            let n = c.n_ipsk as usize;
+            if wire.len() < kl + 16 * n {
+                out.fail(sig("reference-rejects-client-bytes"), "stream shorter than salt and identity headers".to_string());
+                return out;
+            }
+            let salt = &wire[..kl];
+            for i in 0..n {
+                let mut block: [u8; 16] = wire[kl + 16 * i..kl + 16 * (i + 1)].try_into().unwrap();
+                let idk = ss2022::identity_subkey(&ipsks[i], salt, kl);
+                aes_ecb_decrypt_block(&idk, &mut block);
+                let next = if i + 1 < n { &ipsks[i + 1] } else { upsk };
+                if block != ss2022::psk_hash(next) {
+                    out.fail(sig("relay-does-not-find-the-next-key"), format!("identity header {} of {} does not name the next key of the chain", i, n));
+                    return out;
+                }
+            }
+            match ss2022::decode_tcp_request(cipher, upsk, &[], n, &wire) {
+                Ok(dec) => {
+                    let mut got = dec.req.first.clone();
+                    for ch in &dec.req.chunks {
+                        got.extend_from_slice(ch);
+                    }
+                    let want: Vec<u8> = writes.concat();
+                    if dec.req.addr != c.addr || got != want {
+                        out.fail(sig("reference-decodes-differently"), format!("behind {} identity headers the reference decodes {} bytes for {:?}; the client was given {} bytes for {:?}", n, got.len(), dec.req.addr, want.len(), c.addr));
+                        return out;
+                    }
+                }
+                Err(e) => {
+                    out.fail(sig("reference-rejects-client-bytes"), format!("behind {} identity headers: {}", n, e));
+                    return out;
+                }
+            }
+        }
+        if c.n_ipsk >= 2 {
+            out.nontrivial(format!("{}|{}|{}|{:?}", cipher.name(), c.n_ipsk, c.udp, c.lens.iter().map(|l| gen::size_class(*l as usize)).collect::<Vec<_>>()));
+        }
+        out
+    }
+}
+
 pub fn subs() -> Vec<Box<dyn DynSub>> {
-    vec![Box::new(TcpImplToRef), Box::new(TcpRefToImpl), Box::new(UdpSs), Box::new(UdpInStream)]
+    vec![Box::new(TcpImplToRef), Box::new(TcpRefToImpl), Box::new(UdpSs), Box::new(UdpInStream), Box::new(IdentityChain)]
 }
 
 pub fn run(ctx: &mut PropCtx) {
@@ -840,4 +1006,5 @@ pub fn run(ctx: &mut PropCtx) {
     rt::run_sub(ctx, &TcpRefToImpl, t.pick(30_000, 600_000));
     rt::run_sub(ctx, &UdpSs, t.pick(20_000, 300_000));
     rt::run_sub(ctx, &UdpInStream, t.pick(20_000, 300_000));
+    rt::run_sub(ctx, &IdentityChain, t.pick(30_000, 400_000));
 }
